@@ -265,7 +265,7 @@ impl Profile {
         match name {
             "liq" => { p.w_steer_liq = 25; p.w_liq = 8; p.w_open = 30; p.w_oracle = 8; }
             "funding" => { p.w_funding = 18; p.w_block = 18; p.w_oracle = 8; p.w_open = 30; }
-            "caps" => { p.w_caps = 14; p.w_open = 45; }
+            "caps" => { p.w_caps = 14; p.w_open = 45; p.w_cfg = 10; }
             "pause" => { p.w_pause = 8; p.w_malformed = 8; }
             "fluct" => { p.w_close = 20; p.w_block = 8; p.w_band = 10; }
             "pcf" => { p.w_close = 12; p.w_block = 8; p.w_funding = 8; p.w_oracle = 6; p.w_open = 30; p.w_steer_liq = 3; p.w_pcf = 14; }
@@ -490,7 +490,15 @@ pub fn history(tr: &mut Tracer, w: &mut World, rng: &mut Rng, p: &Profile) {
             }
         } else if take(p.w_cfg) {
             let r = |rng: &mut Rng| -> u128 { *rng.pick(&[0u128, 1, d / 100, d / 20, d / 10, d / 4, d / 2, d - 1, d, d + 1]) };
-            match rng.below(6) {
+            match rng.below(9) {
+                // combined updates: every subset of the fields, each with its own value (a check that looks at one
+                // field must not let another through)
+                6 | 7 => { let mut o = |rng: &mut Rng| -> Option<u128> { if rng.chance(1, 2) { Some(r(rng)) } else { None } };
+                       let (a, b, c, e) = (o(rng), o(rng), o(rng), o(rng));
+                       tr.step(w, &Op::Eng { sender: ID_OWNER, funds: 0, m: EMsg::UpdCfg { owner: None, ifund: None, fpool: None, init: a, maint: b, plr: c, liqfee: e } }); }
+                8 => { let mut o = |rng: &mut Rng| -> Option<u128> { if rng.chance(1, 2) { Some(r(rng)) } else { None } };
+                       let (a, b, c) = (o(rng), o(rng), o(rng));
+                       tr.step(w, &Op::Vamm { sender: ID_OWNER, v, m: VMsg::UpdCfg { hold: None, oi: None, toll: a, spread: b, fluct: c, engine: None, ifund: None, feed: None, twap: None } }); }
                 0 => { let x = r(rng); tr.step(w, &Op::Eng { sender: ID_OWNER, funds: 0, m: EMsg::UpdCfg { owner: None, ifund: None, fpool: None, init: Some(x), maint: None, plr: None, liqfee: None } }); }
                 1 => { let x = r(rng); tr.step(w, &Op::Eng { sender: ID_OWNER, funds: 0, m: EMsg::UpdCfg { owner: None, ifund: None, fpool: None, init: None, maint: Some(x), plr: None, liqfee: None } }); }
                 2 => { let x = r(rng); tr.step(w, &Op::Eng { sender: ID_OWNER, funds: 0, m: EMsg::UpdCfg { owner: None, ifund: None, fpool: None, init: None, maint: None, plr: Some(x), liqfee: None } }); }
